@@ -181,6 +181,7 @@ def main():
         harness_error('no run completed')
 
     findings = runner.load_known_findings()
+    unconfirmed = []
     exit_code = 0
     reported = set()
     known_printed = set()
@@ -203,8 +204,12 @@ def main():
         if hasattr(prop, 'confirm'):
             ok, why = prop.confirm(spec, v)
             if not ok:
-                harness_error(f'violation does not reproduce under real process isolation ({why}): '
-                              f'{v["oracle"]}: {v["message"]}')
+                # in-process simulated workers share module / static state, real workers do not: an observation
+                # that vanishes with really forked workers is an artefact of the harness, not a violation
+                unconfirmed.append(f'violation does not reproduce under real process isolation ({why}): '
+                                   f'{v["oracle"]}: {v["message"]}')
+                new_violations -= 1
+                continue
         if not args.no_shrink:
             spec, steps = runner.shrink(args.property, spec, v, budget_s=45 if args.tier == 'quick' else 180)
             res = runner.execute_spec(prop, spec)
@@ -222,6 +227,8 @@ def main():
         if new_violations >= 5:
             break
 
+    if unconfirmed and exit_code == 0:
+        harness_error(unconfirmed[0])
     extra = {'selftest': selftest, 'components': COMPONENTS, 'search_wall_s': round(search_wall, 2),
              'jobs': args.jobs, 'known_findings_seen': sorted(known_printed)}
     if hasattr(prop, 'evidence_extra'):
